@@ -2,7 +2,8 @@
 # usage: mutcheck.sh <ID> [props...]
 # apply mutant <ID> to a scratch worktree of /repo's HEAD (never to /repo itself), run the checks against it, clean up.
 id=$1; shift
-patch=/verif/seeded/$id/patch.diff
+V=${VERIF_ROOT:-/verif}
+patch=$V/seeded/$id/patch.diff
 props=${@:-C01 C02 C03 C04 C05 C06 C07 C08 C09 C10 C11 C12 C13 C14 C15 C16 C17 C18}
 wt=/tmp/mutrun/$id
 rm -rf $wt; mkdir -p /tmp/mutrun; git -C /repo worktree prune
@@ -10,10 +11,13 @@ git -C /repo worktree add --detach $wt HEAD >/dev/null 2>&1 || { echo "worktree 
 git -C $wt apply $patch || { echo "patch does not apply"; git -C /repo worktree remove --force $wt; exit 9; }
 res=""
 for p in $props; do
-  out=$(VERIF_REPO=$wt VERIF_EVID=/tmp/mutrun/evid-$id VERIF_REPLAYS=/tmp/mutrun/replays-$id python3-vt /verif/check.py $p 2>&1); rc=$?
+  out=$(VERIF_REPO=$wt VERIF_EVID=/tmp/mutrun/evid-$id VERIF_REPLAYS=/tmp/mutrun/replays-$id python3-vt $V/check.py $p 2>&1); rc=$?
   res="$res $p:$rc"
   if [ $rc -ne 0 ]; then echo "$out" | grep -E "VIOLATION|INCONCLUSIVE|^   " | head -3 | cut -c1-240; fi
 done
 git -C /repo worktree remove --force $wt
+# build outputs made for this scratch tree
+tag=$(python3 -c "import hashlib,sys;print(hashlib.sha1(sys.argv[1].encode()).hexdigest()[:8])" $wt)
+rm -rf $V/.cache/*-$tag $V/.cache/*-$tag-* 2>/dev/null
 true
 echo "MUTANT $id =>$res"
